@@ -188,9 +188,7 @@ pub fn check_graph(u: &Universe, p: &Prob, g: &ConflictGraph) -> GraphFacts {
                         bad("lock-edge-target", "lock edge to a non-solvable node".into());
                         continue;
                     };
-                    if src.is_some() {
-                        bad("lock-edge-source", "lock edge does not start at the root".into());
-                    }
+                    // (where a lock edge starts is not part of the statement; the fact is about its target)
                     let n = u.solvs[t as usize].name;
                     if u.pkgs[n as usize].locked != Some(l.0) || t == l.0 || !rf.locked_out(t) {
                         bad("lock-edge-untrue", format!("s{t} is not locked out by s{}", l.0));
